@@ -110,5 +110,12 @@ Definition da_eval (delta gamma kappa : I.type) (nd m : nat) (eps eb h mu a : I.
   let st : dastate tnumI := Build_dastate tnumI m eps eb h mu in
   let st' := da_step tnumI delta gamma kappa 10 nd st a in
   iout (da_eps tnumI st') ++ iout (da_eps_bar tnumI st') ++ iout (da_h_bar tnumI st').
-(* mu after init_chain *)
-Definition mu_eval (eps : I.type) : list Z := iout (I.ln iprec (I.mul iprec (I.fromZ iprec 10) eps)).
+(* mu after init_chain: Model da_init on a state whose step size is eps *)
+Definition mu_eval (eps : I.type) : list Z :=
+  iout (da_mu tnumI (da_init tnumI (Build_dastate tnumI 0 eps eps eps eps))).
+(* a whole run(): init_chain, then one adaptation step per transition (acceptance statistics accs);
+   output: the counter, then enclosures of eps, eps_bar, h_bar, mu at the end of the run *)
+Definition da_run_eval (delta gamma kappa : I.type) (nd m : nat) (eps eb h mu : I.type) (accs : list I.type) : list Z :=
+  let st' := da_run tnumI delta gamma kappa 10 nd (Build_dastate tnumI m eps eb h mu) accs in
+  [Z.of_nat (da_m tnumI st')] ++ iout (da_eps tnumI st') ++ iout (da_eps_bar tnumI st')
+  ++ iout (da_h_bar tnumI st') ++ iout (da_mu tnumI st').
